@@ -67,6 +67,16 @@ class UnaryOperation(Operation):
             raise ParsingException(f'Expected one argument for operation "{self.op}"')
 
 
+function_name_regex = re.compile(r'[a-zA-Z_][a-zA-Z_0-9]*')
+
+# keywords that are not read as a name in front of a parenthesis
+NOT_FUNCTION_NAMES = {
+    'SELECT', 'DISTINCT', 'FROM', 'WHERE', 'HAVING', 'LIMIT', 'UNION', 'WITH', 'AS', 'ON', 'USING',
+    'JOIN', 'INNER', 'OUTER', 'CROSS', 'AND', 'OR', 'NOT', 'IN', 'IS', 'LIKE', 'BETWEEN',
+    'CASE', 'WHEN', 'THEN', 'ELSE', 'END', 'NULL', 'TRUE', 'FALSE', 'ASC', 'DESC', 'OVER', 'INTO', 'SET', 'FOR'
+}
+
+
 class Function(Operation):
     def __init__(self, *args, distinct=False, from_arg=None, namespace=None, **kwargs):
         super().__init__(*args, **kwargs)
@@ -90,13 +100,21 @@ class Function(Operation):
                   f'{ind})'
         return out_str
 
+    @staticmethod
+    def name_to_string(name):
+        if not function_name_regex.fullmatch(name) or name.upper() in NOT_FUNCTION_NAMES:
+            # can be read back only as a quoted name
+            name = f'`{name}`'
+        return name
+
     def get_string(self, *args, **kwargs):
         args_str = ', '.join([arg.to_string() for arg in self.args])
         distinct_str = 'DISTINCT ' if self.distinct else ''
 
         from_str = f' FROM {self.from_arg.to_string()}' if self.from_arg else ''
-        namespace = self.namespace + '.' if self.namespace else ''
-        return f'{namespace}{self.op}({distinct_str}{args_str}{from_str})'
+        namespace = self.name_to_string(self.namespace) + '.' if self.namespace else ''
+        name = self.name_to_string(self.op)
+        return f'{namespace}{name}({distinct_str}{args_str}{from_str})'
 
 
 class WindowFunction(ASTNode):
